@@ -21,6 +21,7 @@ func exec(p cluster.Program, c *hx.Case) error {
 	}
 	c.LabelIf(st.Kills > 0, "worker-kill")
 	c.LabelIf(st.PubDuringRecovery > 0, "checkpoint-published-while-the-recovery-was-being-deployed")
+	c.LabelIf(st.SlowAssigns > 0, "slow-split-assignment")
 	c.LabelIf(len(p.Fan) > 0, "records-keyed-into-several-events")
 	c.LabelIf(st.KillsAfterCkpt > 0, "kill-after-checkpoint")
 	c.LabelIf(st.KillsDuringCkpt > 0, "kill-during-checkpoint")
